@@ -192,4 +192,30 @@ example : parseDateYYMMDD "240229".toList = some ⟨2024, 2, 29⟩ ∧ parseDate
     parseDateYYMMDD "790101".toList = some ⟨1979, 1, 1⟩ ∧ parseDateYYMMDD "+1+1+1".toList = none ∧
     json13dDecode "790101".toList = some ⟨1979, 1, 1⟩ := by decide
 
+
+/-- the four digits of a time of day, as every field that holds one prints it -/
+def printHHMM (hh mm : Nat) : Text := fmt2 hh ++ fmt2 mm
+
+/-- **times round-trip**: what was accepted prints back as the text that was read -/
+theorem time_print_parse (t : Text) (hh mm : Nat) (h : parseTimeHHMM t = some (hh, mm)) : printHHMM hh mm = t := by
+  obtain ⟨a, b, c, d, ha, hb, hc, hd, rfl, rfl, rfl, _, _⟩ := (time_accept_iff t hh mm).mp h
+  unfold printHHMM
+  rw [fmt2_digits ha hb, fmt2_digits hc hd]; rfl
+
+/-- … and every time of day is written in a form that reads back as the same time (no second meaning) -/
+theorem time_parse_print (hh mm : Nat) (h1 : hh ≤ 23) (h2 : mm ≤ 59) : parseTimeHHMM (printHHMM hh mm) = some (hh, mm) := by
+  refine (time_accept_iff _ hh mm).mpr ⟨hh / 10, hh % 10, mm / 10, mm % 10, by omega, by omega, by omega, by omega, ?_, by omega, by omega, h1, h2⟩
+  unfold printHHMM
+  have e1 : hh = 10 * (hh / 10) + hh % 10 := by omega
+  have e2 : mm = 10 * (mm / 10) + mm % 10 := by omega
+  conv => lhs; rw [e1, e2]
+  rw [fmt2_digits (by omega) (by omega), fmt2_digits (by omega) (by omega)]; rfl
+
+/-- two accepted time texts with the same meaning are the same text -/
+theorem time_injective (t t' : Text) (v : Nat × Nat) (h : parseTimeHHMM t = some v) (h' : parseTimeHHMM t' = some v) : t = t' := by
+  rw [← time_print_parse t v.1 v.2 h, ← time_print_parse t' v.1 v.2 h']
+
+/-- two accepted date texts with the same meaning are the same text -/
+theorem date_injective (t t' : Text) (x : YMD) (h : parseDateYYMMDD t = some x) (h' : parseDateYYMMDD t' = some x) : t = t' := by
+  rw [← print_parse t x h, ← print_parse t' x h']
 end SwiftMT.Props.C11
